@@ -327,6 +327,18 @@ static void do_record(uint64_t seed, long long n) {
     string res = guarded([&] { UTMUPS::Forward(lat, lon, zone, northp, x, y, gam, k); });
     Rec r; r.str("e", "nanf").i("w", w).str("out", res).i("zone", zone)
       .b("allnan", std::isnan(x) && std::isnan(y) && std::isnan(gam) && std::isnan(k)); r.emit();
+    // the same with every kind of requested zone: "calling the class functions with NaNs as arguments is not an error; NaNs are
+    // returned" (sz = 0, UPS, is given a latitude that is legal there)
+    if (w) for (int sz : {-4, -3, -2, -1, 0, 1, 31, 32, 60}) {
+      double la2 = (w & 1) ? Math::NaN() : (sz == 0 ? 85.0 : 10.0); zone = -99; northp = false; x = 1; y = 2; gam = 3; k = 4;
+      string res2 = guarded([&] { UTMUPS::Forward(la2, lon, zone, northp, x, y, gam, k, sz); });
+      Rec r2; r2.str("e", "nanz").i("w", w).i("sz", sz).str("out", res2).i("zone", zone).b("has", true)
+        .b("xn", std::isnan(x)).b("yn", std::isnan(y)).b("gn", std::isnan(gam)).b("kn", std::isnan(k)); r2.emit();
+      double x2 = 1, y2 = 2; zone = -99;
+      res2 = guarded([&] { UTMUPS::Forward(la2, lon, zone, northp, x2, y2, sz); });
+      Rec r3; r3.str("e", "nanz").i("w", w).i("sz", sz).str("out", res2).i("zone", zone).b("has", false)
+        .b("xn", std::isnan(x2)).b("yn", std::isnan(y2)).b("gn", true).b("kn", true); r3.emit();
+    }
     double la = 1, lo = 2; x = (w & 1) ? Math::NaN() : 500000.0; y = (w & 2) ? Math::NaN() : 1000000.0;
     res = guarded([&] { UTMUPS::Reverse(w == 0 ? UTMUPS::INVALID : 31, true, x, y, la, lo, gam, k); });
     Rec q; q.str("e", "nanr").i("w", w).str("out", res).b("allnan", std::isnan(la) && std::isnan(lo) && std::isnan(gam) && std::isnan(k)); q.emit();
